@@ -5,7 +5,7 @@ SPEC = {
     "translators": ["gen_patident"],
     "bins": ["c07"],
     "model_targets": ["Cond/IndepCheck.vo"],
-    "proof_targets": ["Cond/IndependenceProofs.vo", "Cond/IdentityShape.vo"],
+    "proof_targets": ["Cond/IndependenceProofs.vo", "Cond/IdentityShape.vo", "Cond/QuirksProofs.vo"],
     "assumptions": [
         "pattern-id assignment is modelled as in lib/src/compiler/mod.rs c_rule: ids in declaration order, one table de-duplicating by the full identity of a pattern; the identity is abstracted to (text, tag) and the scanner to an arbitrary function from identity and buffer to a match list",
         "rule references of r are abstracted to a verdict function of the referenced rules (the same in both compilations); the harness covers them by compiling r together with its dependencies and the global rules of its namespace",
@@ -22,18 +22,16 @@ RULE = ("a generated rule r (conditions as in C02) with 0-2 rules it refers to a
         "alone and embedded among 0-200 generated unrelated rules placed before/between/after in the same namespace and in up to 24 "
         "other namespaces, 40% of whose patterns are r's patterns verbatim and 30% r's text with other modifiers (nocase, wide, "
         "fullword, xor, private), with filesize bounds / header constraints / anchors of their own; slice = (r matches?, matches of "
-        "each pattern of r). A dedicated stream uses `N of <set>` with run-time N <= 0. Non-trivial: condition of >= 5 nodes; "
+        "each pattern of r). A dedicated stream uses `N of <set>` with run-time N <= 0 (regression for the repaired range fast path). Non-trivial: condition of >= 5 nodes; "
         "distinct by (condition, number of extra rules).")
 
 
 def classify(case):
     single, emb, warm = case.get("single"), case.get("embedded"), case.get("single_with_forced_search")
-    if case.get("stream") == "of_nonpositive":
-        return "C07:of-fast-path:N<=0:contiguity-of-pattern-ids-depends-on-other-rules"
     sl = lambda o: (o.get("matching"), o.get("matches")) if o else None
-    if sl(single) != sl(emb) and sl(emb) == sl(warm) and single.get("matching") != emb.get("matching"):
-        return "C07:lazy-pattern-search:verdict-depends-on-whether-an-earlier-rule-triggered-the-search"
-    return "C07:outcome-depends-on-unrelated-rules:" + hashlib.sha1(case.get("single_source", "").encode()).hexdigest()[:10]
+    kind = "verdict" if (single or {}).get("matching") != (emb or {}).get("matching") else "matches"
+    hint = ":equals-forced-search-run" if sl(emb) == sl(warm) else ""
+    return "C07:outcome-depends-on-unrelated-rules:" + kind + hint + ":" + hashlib.sha1(case.get("single_source", "").encode()).hexdigest()[:10]
 
 
 def run_k(run, tier, seed, drv):
@@ -56,12 +54,12 @@ MANIFEST = {
                    "evaluation of a compiled rule against match lists indexed by pattern id; theorem `independence`: for every "
                    "rule r, every list of rules before and after it, every buffer and every matching semantics, the verdict and the "
                    "reported matches of r inside the set equal those of r compiled alone (from `dedup_respects_identity` and the "
-                   "invariance of evaluation under renaming of pattern identifiers). With the model of the implementation's `N of` "
-                   "range fast path the theorem is refuted for N <= 0. The implementation is checked differentially: the per-rule "
+                   "invariance of evaluation under renaming of pattern identifiers). The implementation's two ways of evaluating `N of` (range fast "
+                   "path over consecutive ids, loop) are proved to agree for every N. The implementation is checked differentially: the per-rule "
                    "slice of the scan results alone vs embedded among 0-200 generated rules, and against the documented meaning."),
-    "level_note": ("Chunking into WASM functions, search-kernel selection and fast-scan bits are covered differentially only. Known "
-                   "deviations: `N of` fast path for N <= 0; lazy pattern search skipped (the verdict depends on whether an earlier rule "
-                   "triggered the search). That reported matches are empty when no condition needed the search is accepted as designed."),
+    "level_note": ("Chunking into WASM functions, search-kernel selection and fast-scan bits are covered differentially only. Deviations "
+                   "found and repaired in /repo: `N of` fast path for N <= 0; lazy pattern search skipped (the verdict depended on whether an "
+                   "earlier rule triggered the search). That reported matches are empty when no condition needed the search is accepted as designed."),
     "technique": "Coq model + theorem; differential correspondence singleton vs embedded (vm_compute on the implementation's outputs)",
     "design_ref": "DESIGN.md section 4, C07",
 }
